@@ -37,6 +37,7 @@ Definition enc_pub (p : pub) : list Z :=
   end.
 Definition enc_event (e : event) : list Z :=
   match e with
+  | EvCall t c => [0; Z.of_nat t; enc_call c]
   | EvHook h => enc_hookrec h
   | EvPub p => enc_pub p
   | EvRet t c r => [3; Z.of_nat t; enc_call c; enc_res r]
